@@ -546,6 +546,116 @@ Qed.
 (* ------------------------------------------------------------------ *)
 (* Part C: queues and the two-party invariant                          *)
 
+
+(* ---------- in-place fee merging (append_upd) ---------- *)
+Lemma replace_nth_length n : forall l u, length (replace_nth n l u) = length l.
+Proof.
+  induction n as [|n IH]; intros [|x l] u; cbn; try reflexivity. rewrite IH. reflexivity.
+Qed.
+
+Lemma replace_nth_firstn n : forall l u m, (m <= n)%nat ->
+  firstn m (replace_nth n l u) = firstn m l.
+Proof.
+  induction n as [|n IH]; intros [|x l] u m HM; cbn; try reflexivity.
+  - replace m with 0%nat by lia. reflexivity.
+  - destruct m as [|m]; [reflexivity|]. cbn. rewrite IH by lia. reflexivity.
+Qed.
+
+(* the index found by last_fee_idx holds a fee update *)
+Lemma last_fee_idx_spec l : forall i acc j,
+  last_fee_idx l i acc = Some j ->
+  acc = Some j \/ ((i <= j)%nat /\ exists r, nth_error l (j - i) = Some (UFee r)).
+Proof.
+  induction l as [|u l IH]; intros i acc j HL; cbn in HL; [left; exact HL|].
+  destruct u; try (apply IH in HL; destruct HL as [HL|[HI [r HN]]]; [left; exact HL|right];
+    split; [lia|]; exists r; replace (j - i)%nat with (Datatypes.S (j - Datatypes.S i)) by lia; exact HN).
+  apply IH in HL. destruct HL as [HL|[HI [r HN]]].
+  - inversion HL; subst j. right. split; [lia|]. exists rate.
+    replace (i - i)%nat with 0%nat by lia. reflexivity.
+  - right. split; [lia|]. exists r.
+    replace (j - i)%nat with (Datatypes.S (j - Datatypes.S i)) by lia. exact HN.
+Qed.
+
+Lemma last_fee_idx_nth l j : last_fee_idx l 0 None = Some j ->
+  exists r, nth_error l j = Some (UFee r).
+Proof.
+  intros HL. apply last_fee_idx_spec in HL. destruct HL as [HL|[_ [r HN]]]; [discriminate|].
+  exists r. rewrite Nat.sub_0_r in HN. exact HN.
+Qed.
+
+Lemma replace_fee_removes n : forall l r0 r, nth_error l n = Some (UFee r0) ->
+  removes_of (replace_nth n l (UFee r)) = removes_of l.
+Proof.
+  induction n as [|n IH]; intros [|x l] r0 r HN; cbn in *; try discriminate.
+  - inversion HN; subst x. reflexivity.
+  - destruct x; cbn; erewrite IH by exact HN; reflexivity.
+Qed.
+
+Lemma replace_fee_add_pos n : forall l r0 r i pos, nth_error l n = Some (UFee r0) ->
+  add_pos_from (replace_nth n l (UFee r)) i pos = add_pos_from l i pos.
+Proof.
+  induction n as [|n IH]; intros [|x l] r0 r i pos HN; cbn in *; try discriminate.
+  - inversion HN; subst x. reflexivity.
+  - destruct x; try (eapply IH; exact HN). destruct i; [reflexivity|eapply IH; exact HN].
+Qed.
+
+Lemma replace_fee_nonneg n : forall l r, amounts_nonneg l ->
+  amounts_nonneg (replace_nth n l (UFee r)).
+Proof.
+  induction n as [|n IH]; intros [|x l] r HA; cbn; try exact HA.
+  - inversion HA; subst. constructor; [exact I|assumption].
+  - inversion HA; subst. constructor; [assumption|apply IH; assumption].
+Qed.
+
+Lemma parents_append_upd l b u : parents (append_upd l b u) = parents (l ++ [u]).
+Proof.
+  unfold append_upd. destruct u; try reflexivity.
+  destruct (last_fee_idx l 0 None) as [j|] eqn:HL; [|reflexivity].
+  destruct (Nat.leb b j); [|reflexivity].
+  apply last_fee_idx_nth in HL. destruct HL as [r0 HN].
+  unfold parents. rewrite (replace_fee_removes _ _ _ _ HN), removes_of_app. cbn.
+  rewrite app_nil_r. reflexivity.
+Qed.
+
+Lemma add_pos_append_upd l b u i a :
+  add_pos l i = Some a -> add_pos (append_upd l b u) i = Some a.
+Proof.
+  intros HP. unfold append_upd. destruct u; try (apply add_pos_app; exact HP).
+  destruct (last_fee_idx l 0 None) as [j|] eqn:HL; [|apply add_pos_app; exact HP].
+  destruct (Nat.leb b j); [|apply add_pos_app; exact HP].
+  apply last_fee_idx_nth in HL. destruct HL as [r0 HN].
+  unfold add_pos. rewrite (replace_fee_add_pos _ _ _ _ _ _ HN). exact HP.
+Qed.
+
+Lemma amounts_nonneg_append_upd l b u :
+  amounts_nonneg l -> upd_nonneg u -> amounts_nonneg (append_upd l b u).
+Proof.
+  intros HA Hu.
+  assert (HS : amounts_nonneg (l ++ [u])).
+  { apply Forall_app. split; [exact HA|]. constructor; [exact Hu|constructor]. }
+  unfold append_upd. destruct u; try exact HS.
+  destruct (last_fee_idx l 0 None) as [j|]; [|exact HS].
+  destruct (Nat.leb b j); [|exact HS]. apply replace_fee_nonneg. exact HA.
+Qed.
+
+Lemma append_upd_length_ge l b u : (length l <= length (append_upd l b u))%nat.
+Proof.
+  unfold append_upd.
+  assert (HS : (length l <= length (l ++ [u]))%nat) by (rewrite app_length; lia).
+  destruct u; try exact HS.
+  destruct (last_fee_idx l 0 None) as [j|]; [|exact HS].
+  destruct (Nat.leb b j); [|exact HS]. rewrite replace_nth_length. lia.
+Qed.
+
+Lemma append_upd_firstn l b u n : (n <= b)%nat -> (n <= length l)%nat ->
+  firstn n (append_upd l b u) = firstn n l.
+Proof.
+  intros HB HL. unfold append_upd.
+  assert (HS : firstn n (l ++ [u]) = firstn n l) by (apply firstn_app_le; exact HL).
+  destruct u; try exact HS.
+  destruct (last_fee_idx l 0 None) as [j|]; [|exact HS].
+  destruct (Nat.leb_spec b j); [|exact HS]. apply replace_nth_firstn. lia.
+Qed.
 Fixpoint upds_in (q : list msg) : list upd :=
   match q with [] => [] | MUpd u :: r => u :: upds_in r | _ :: r => upds_in r end.
 Fixpoint nsig (q : list msg) : nat :=
@@ -627,6 +737,82 @@ Qed.
 
 Local Open Scope nat_scope.
 
+(* ---------- the receiver's view of a queue (fee updates merge in place) ---------- *)
+(* [replay S log b q]: the log the receiver ends up with after processing q on
+   top of [log]; b is its committed bound for S's log, which moves only when a
+   signature of S arrives (then lTip := k). *)
+Fixpoint replay (S : bool) (log : list upd) (b : nat) (q : list msg) : list upd :=
+  match q with
+  | [] => log
+  | MUpd u :: r => replay S (append_upd log b u) b r
+  | MSig k :: r => replay S log (n_of S k) r
+  | MRev :: r => replay S log b r
+  end.
+Fixpoint endb (S : bool) (b : nat) (q : list msg) : nat :=
+  match q with
+  | [] => b
+  | MSig k :: r => endb S (n_of S k) r
+  | _ :: r => endb S b r
+  end.
+(* the holder's bound for S's log *)
+Definition hb (S : bool) (x : party) : nat := n_of S (tip_of (lTail x) (lTip x)).
+Definition sigs_ge (S : bool) (n : nat) (q : list msg) : Prop :=
+  forall k, In (MSig k) q -> n <= n_of S k.
+
+Lemma replay_app S q1 : forall log b q2,
+  replay S log b (q1 ++ q2) = replay S (replay S log b q1) (endb S b q1) q2.
+Proof.
+  induction q1 as [|m q1 IH]; intros log b q2; [reflexivity|].
+  destruct m; cbn [app replay endb]; apply IH.
+Qed.
+
+Lemma endb_app S q1 : forall b q2, endb S b (q1 ++ q2) = endb S (endb S b q1) q2.
+Proof.
+  induction q1 as [|m q1 IH]; intros b q2; [reflexivity|]. destruct m; cbn [app endb]; apply IH.
+Qed.
+
+Lemma endb_nosig S q : forall b, nsig q = 0 -> endb S b q = b.
+Proof.
+  induction q as [|m q IH]; intros b HN; [reflexivity|].
+  destruct m; cbn [nsig endb] in *; try discriminate; apply IH; exact HN.
+Qed.
+
+Lemma replay_length_ge S q : forall log b, length log <= length (replay S log b q).
+Proof.
+  induction q as [|m q IH]; intros log b; [cbn; lia|].
+  destruct m; cbn [replay]; try apply IH.
+  eapply Nat.le_trans; [apply (append_upd_length_ge log b u)|apply IH].
+Qed.
+
+Lemma replay_firstn S n q : forall log b, n <= b -> n <= length log -> sigs_ge S n q ->
+  firstn n (replay S log b q) = firstn n log.
+Proof.
+  induction q as [|m q IH]; intros log b HB HL HS; [reflexivity|].
+  assert (HS' : sigs_ge S n q) by (intros k HI; apply HS; right; exact HI).
+  destruct m; cbn [replay].
+  - rewrite IH; try assumption.
+    + apply append_upd_firstn; assumption.
+    + eapply Nat.le_trans; [exact HL|apply append_upd_length_ge].
+  - apply IH; try assumption. apply HS. left. reflexivity.
+  - apply IH; assumption.
+Qed.
+
+Lemma parents_replay S q : forall log b,
+  parents (replay S log b q) = parents (log ++ upds_in q).
+Proof.
+  induction q as [|m q IH]; intros log b; cbn [replay upds_in]; [rewrite app_nil_r; reflexivity|].
+  destruct m; try apply IH.
+  rewrite IH, !parents_app, parents_append_upd, parents_app.
+  change (u :: upds_in q) with ([u] ++ upds_in q). rewrite parents_app, <- app_assoc. reflexivity.
+Qed.
+
+Lemma add_pos_replay S q : forall log b i a,
+  add_pos log i = Some a -> add_pos (replay S log b q) i = Some a.
+Proof.
+  induction q as [|m q IH]; intros log b i a HP; [exact HP|].
+  destruct m; cbn [replay]; apply IH; try exact HP. apply add_pos_append_upd. exact HP.
+Qed.
+
 Section Invariant.
 Variable c : cfg.
 
@@ -648,7 +834,8 @@ Definition kgood (S H : bool) (xS xH : party) (k : commit) : Prop :=
 
 Definition sig_at (S H : bool) (xH : party) (qS : list msg) (k : commit) : Prop :=
   exists pre post, qS = pre ++ MSig k :: post /\ nsig pre = 0 /\ nsig post = 0 /\
-    n_of S k = length (peer xH) + nupd pre /\ n_of H k = n_of H (ev_rtail xH pre).
+    n_of S k = length (replay S (peer xH) (hb S xH) pre) /\
+    n_of H k = n_of H (ev_rtail xH pre).
 
 (* the 4-phase cycle of direction "S signs H's commitments" *)
 Inductive phase (S H : bool) (xS xH : party) (qS qH : list msg) : Prop :=
@@ -664,7 +851,7 @@ Inductive phase (S H : bool) (xS xH : party) (qS qH : list msg) : Prop :=
         phase S H xS xH qS qH.
 
 Record InvDir (S H : bool) (xS xH : party) (qS qH : list msg) : Prop := mkInvDir {
-  i_j1 : peer xH ++ upds_in qS = own xS;
+  i_j1 : replay S (peer xH) (hb S xH) qS = own xS;
   i_an : amounts_nonneg (own xS);
   i_nd : NoDup (parents (own xS));
   i_wa : forall i, In i (parents (own xS)) ->
@@ -724,51 +911,164 @@ Proof.
   try exact E. congruence.
 Qed.
 
+Lemma good_upd_S S H lS lH b u k : good S H lS lH k -> n_of S k <= b ->
+  good S H (append_upd lS b u) lH k.
+Proof.
+  intros [HK [HS HH]] HB. split.
+  2:{ split; [|exact HH]. eapply Nat.le_trans; [exact HS|apply append_upd_length_ge]. }
+  rewrite <- HK. destruct S; cbn [sel n_of] in *;
+    apply commit_of_ext; try reflexivity; apply append_upd_firstn; assumption.
+Qed.
+
+Lemma good_upd_H S H lS lH b u k : H = negb S -> good S H lS lH k -> n_of H k <= b ->
+  good S H lS (append_upd lH b u) k.
+Proof.
+  intros -> [HK [HS HH]] HB. split.
+  2:{ split; [exact HS|]. eapply Nat.le_trans; [exact HH|apply append_upd_length_ge]. }
+  rewrite <- HK. destruct S; cbn [sel n_of negb] in *;
+    apply commit_of_ext; try reflexivity; apply append_upd_firstn; assumption.
+Qed.
+
+(* cuts never run ahead of the signer's newest remote commitment *)
+Lemma phase_m2 S H xS xH qS qH : phase S H xS xH qS qH ->
+  n_of S (lTail xH) <= n_of S (tip_of (rTail xS) (rTip xS)) /\
+  n_of S (rTail xS) <= n_of S (tip_of (rTail xS) (rTip xS)).
+Proof.
+  intros ph.
+  destruct ph as [R L NS NR E|kp R G SA L NR E|kp R G NS L NR E B|kp R G NS L LT NR B];
+    rewrite R; cbn [tip_of]; try (destruct G as [_ [_ [_ HM]]]); subst; try rewrite <- E; lia.
+Qed.
+
+Lemma phase_hb S H xS xH qS qH : phase S H xS xH qS qH ->
+  n_of S (lTail xH) <= hb S xH /\ hb S xH <= n_of S (tip_of (rTail xS) (rTip xS)).
+Proof.
+  intros ph. unfold hb.
+  destruct ph as [R L NS NR E|kp R G SA L NR E|kp R G NS L NR E B|kp R G NS L LT NR B];
+    rewrite R, L; cbn [tip_of]; try (destruct G as [_ [_ [_ HM]]]); subst; try rewrite <- E; lia.
+Qed.
+
+Lemma endb_phase S H xS xH qS qH : phase S H xS xH qS qH ->
+  endb S (hb S xH) qS = n_of S (tip_of (rTail xS) (rTip xS)).
+Proof.
+  intros ph. unfold hb.
+  destruct ph as [R L NS NR E|kp R G SA L NR E|kp R G NS L NR E B|kp R G NS L LT NR B];
+    rewrite R, L; cbn [tip_of]; try (rewrite endb_nosig by exact NS; congruence).
+  destruct SA as [pre [post [EQ [N1 [N2 _]]]]]. rewrite EQ, endb_app. cbn [endb].
+  apply endb_nosig. exact N2.
+Qed.
+
+Lemma phase_sigs_ge S H xS xH qS qH : phase S H xS xH qS qH ->
+  sigs_ge S (n_of S (lTail xH)) qS.
+Proof.
+  intros ph k HI.
+  destruct ph as [R L NS NR E|kp R G SA L NR E|kp R G NS L NR E B|kp R G NS L LT NR B];
+    try (exfalso; exact (nsig_notin _ _ NS HI)).
+  destruct SA as [pre [post [EQ [N1 [N2 _]]]]]. subst qS.
+  apply in_app_or in HI. destruct HI as [HI|[HI|HI]].
+  - exfalso. exact (nsig_notin _ _ N1 HI).
+  - inversion HI; subst. destruct G as [_ [_ [_ HM]]]. rewrite <- E. exact HM.
+  - exfalso. exact (nsig_notin _ _ N2 HI).
+Qed.
+
+(* the part of S's log that H's tail commitment covers has been delivered verbatim *)
+Lemma peer_prefix S H xS xH qS qH n : InvDir S H xS xH qS qH ->
+  n <= n_of S (lTail xH) -> firstn n (peer xH) = firstn n (own xS).
+Proof.
+  intros [j1 an nd wa wb gt gl bl m1 ph] HN. rewrite <- j1. symmetry.
+  destruct (phase_hb _ _ _ _ _ _ ph) as [HB _].
+  apply replay_firstn; [lia|lia|].
+  intros k HI. pose proof (phase_sigs_ge _ _ _ _ _ _ ph k HI). lia.
+Qed.
+
+Lemma peer_len S H xS xH qS qH : InvDir S H xS xH qS qH -> length (peer xH) <= length (own xS).
+Proof. intros [j1 an nd wa wb gt gl bl m1 ph]. rewrite <- j1. apply replay_length_ge. Qed.
+
+Lemma lt_own_bound S H xS xH qS qH :
+  InvDir S H xS xH qS qH -> InvDir H S xH xS qH qS ->
+  n_of S (lTail xS) <= n_of S (tip_of (rTail xS) (rTip xS)) /\
+  n_of S (tip_of (lTail xS) (lTip xS)) <= n_of S (tip_of (rTail xS) (rTip xS)).
+Proof.
+  intros [j1 an nd wa wb gt gl bl m1 ph] [j1' an' nd' wa' wb' gt' gl' bl' m1' ph'].
+  destruct (phase_m2 _ _ _ _ _ _ ph) as [HA _]. destruct m1' as [m1a m1b].
+  destruct ph' as [R L NS NR E|kp R G SA L NR E|kp R G NS L NR E B|kp R G NS L LT NR B];
+    rewrite L; cbn [tip_of]; try (rewrite <- E; lia).
+  - specialize (m1b _ R). rewrite <- E. lia.
+  - subst kp. specialize (m1b _ R). lia.
+Qed.
+
+(* the sender's merge bound is the cut of its newest remote commitment ... *)
+Lemma sender_bound S H xS xH qS qH :
+  InvDir S H xS xH qS qH -> InvDir H S xH xS qH qS ->
+  committed_bound S xS = n_of S (tip_of (rTail xS) (rTip xS)).
+Proof.
+  intros I1 I2. destruct (lt_own_bound _ _ _ _ _ _ I1 I2) as [_ HB].
+  unfold committed_bound. lia.
+Qed.
+
+(* ... and the receiver's is the cut of its newest local commitment *)
+Lemma receiver_bound S H xS xH qS qH :
+  InvDir S H xS xH qS qH -> InvDir H S xH xS qH qS ->
+  committed_bound S xH = hb S xH.
+Proof.
+  intros [j1 an nd wa wb gt gl bl m1 ph] [j1' an' nd' wa' wb' gt' gl' bl' m1' ph'].
+  destruct (phase_hb _ _ _ _ _ _ ph) as [HB _]. destruct m1' as [m1a m1b].
+  unfold committed_bound. fold (hb S xH).
+  assert (n_of S (tip_of (rTail xH) (rTip xH)) <= n_of S (lTail xH)).
+  { destruct (rTip xH) as [k'|]; cbn [tip_of]; [apply m1b; reflexivity|exact m1a]. }
+  lia.
+Qed.
+
 (* ---------- OSend by S ---------- *)
 Lemma send_S S H xS xH qS qH u : H = negb S ->
   InvDir S H xS xH qS qH -> InvDir H S xH xS qH qS ->
   upd_enabled c S xS u = true ->
-  InvDir S H (mkParty (own xS ++ [u]) (peer xS) (lTail xS) (lTip xS) (rTail xS) (rTip xS))
+  InvDir S H (mkParty (append_upd (own xS) (committed_bound S xS) u) (peer xS)
+                      (lTail xS) (lTip xS) (rTail xS) (rTip xS))
          xH (qS ++ [MUpd u]) qH.
 Proof.
-  intros HSH [j1 an nd wa wb gt gl bl m1 ph] [j1' an' nd' wa' wb' gt' gl' bl' m1' ph'] HE.
+  intros HSH I1 I2 HE.
+  pose proof (sender_bound _ _ _ _ _ _ I1 I2) as SB.
+  destruct I1 as [j1 an nd wa wb gt gl bl m1 ph]. destruct I2 as [j1' an' nd' wa' wb' gt' gl' bl' m1' ph'].
+  destruct (phase_m2 _ _ _ _ _ _ ph) as [A1 A2].
   assert (HR : forall i, u = USettle i \/ u = UFail i ->
             ~ In i (parents (own xS)) /\
             exists a, add_pos (own xH) i = Some a /\ a < n_of H (lTail xS)).
   { intros i Hu. assert (HE' : removal_enabled S xS i = true) by (destruct Hu; subst u; exact HE).
     apply removal_enabled_inv in HE'. destruct HE' as [a [HP [HL [_ HN]]]].
     split; [exact HN|]. exists a. rewrite <- HSH in HL. split; [|exact HL].
-    rewrite <- j1'. apply add_pos_app. exact HP. }
+    rewrite <- j1'. apply add_pos_replay. exact HP. }
   constructor; cbn [own peer lTail lTip rTail rTip].
-  - rewrite upds_in_app, app_assoc, j1. reflexivity.
-  - apply Forall_app. split; [exact an|]. constructor; [|constructor].
-    destruct u; cbn in *; try exact I. lia.
-  - rewrite parents_app. destruct u; cbn [parents removes_of map]; rewrite ?app_nil_r; try exact nd;
+  - rewrite replay_app, j1. cbn [replay]. rewrite (endb_phase _ _ _ _ _ _ ph), SB. reflexivity.
+  - apply amounts_nonneg_append_upd; [exact an|]. destruct u; cbn in *; try exact I. lia.
+  - rewrite parents_append_upd, parents_app.
+    destruct u; cbn [parents removes_of map]; rewrite ?app_nil_r; try exact nd;
     apply nodup_snoc; try exact nd; apply HR; auto.
-  - intros i HI. apply parents_snoc_in in HI. destruct HI as [HI|HI]; [apply wa; exact HI|].
-    apply HR. exact HI.
+  - intros i HI. rewrite parents_append_upd in HI. apply parents_snoc_in in HI.
+    destruct HI as [HI|HI]; [apply wa; exact HI|]. apply HR. exact HI.
   - intros i HI. rewrite upto_rev_snoc in HI.
     destruct (Nat.eqb_spec (nrev qS) 0) as [E|E]; [|apply wb; exact HI].
     rewrite app_assoc in HI. apply parents_snoc_in in HI.
     destruct HI as [HI|HI]; [apply wb; exact HI|].
     rewrite (phase_norev_tail _ _ _ _ _ _ ph' E). apply HR. exact HI.
-  - apply good_app_S. exact gt.
-  - apply good_app_S. exact gl.
+  - apply good_upd_S; [exact gt|]. rewrite SB. exact A2.
+  - apply good_upd_S; [exact gl|]. rewrite SB. exact A1.
   - exact bl.
   - exact m1.
-  - destruct ph as [R L NS NR E|kp R G SA L NR E|kp R G NS L NR E B|kp R G NS L LT NR B].
+  - assert (KG : forall k, rTip xS = Some k -> kgood S H xS xH k ->
+       kgood S H (mkParty (append_upd (own xS) (committed_bound S xS) u) (peer xS)
+                          (lTail xS) (lTip xS) (rTail xS) (rTip xS)) xH k).
+    { intros k R [G HR']. split; [|exact HR']. cbn [own]. apply good_upd_S; [exact G|].
+      rewrite SB, R. cbn [tip_of]. lia. }
+    destruct ph as [R L NS NR E|k R G SA L NR E|k R G NS L NR E B|k R G NS L LT NR B].
     + apply Ph0; cbn [rTip rTail]; try assumption. rewrite nsig_app, NS. reflexivity.
-    + eapply Ph1; cbn [rTip rTail]; try eassumption.
-      * apply kgood_app_S; [reflexivity|exact G].
-      * destruct SA as [pre [post [EQ [N1 [N2 [C1 C2]]]]]].
-        exists pre, (post ++ [MUpd u]). rewrite EQ, <- app_assoc. cbn [app].
-        repeat split; try assumption. rewrite nsig_app, N2. reflexivity.
-    + eapply Ph2; cbn [rTip rTail]; try eassumption.
-      * apply kgood_app_S; [reflexivity|exact G].
-      * rewrite nsig_app, NS. reflexivity.
-    + eapply Ph3; cbn [rTip rTail]; try eassumption.
-      * apply kgood_app_S; [reflexivity|exact G].
-      * rewrite nsig_app, NS. reflexivity.
+    + eapply Ph1; cbn [rTip rTail]; try eassumption; [apply KG; assumption|].
+      destruct SA as [pre [post [EQ [N1 [N2 [C1 C2]]]]]].
+      exists pre, (post ++ [MUpd u]). rewrite EQ, <- app_assoc. cbn [app].
+      repeat split; try assumption. rewrite nsig_app, N2. reflexivity.
+    + eapply Ph2; cbn [rTip rTail]; try eassumption; [apply KG; assumption|].
+      rewrite nsig_app, NS. reflexivity.
+    + eapply Ph3; cbn [rTip rTail]; try eassumption; [apply KG; assumption|].
+      rewrite nsig_app, NS. reflexivity.
 Qed.
 
 Lemma negb_swap (S H : bool) : H = negb S -> S = negb H.
@@ -781,29 +1081,37 @@ Ltac psimpl := cbn [own peer lTail lTip rTail rTip].
 Lemma send_H S H xS xH qS qH u : H = negb S ->
   InvDir S H xS xH qS qH -> InvDir H S xH xS qH qS ->
   upd_enabled c S xS u = true ->
-  InvDir H S xH (mkParty (own xS ++ [u]) (peer xS) (lTail xS) (lTip xS) (rTail xS) (rTip xS))
+  InvDir H S xH (mkParty (append_upd (own xS) (committed_bound S xS) u) (peer xS)
+                         (lTail xS) (lTip xS) (rTail xS) (rTip xS))
          qH (qS ++ [MUpd u]).
 Proof.
-  intros HSH [j1 an nd wa wb gt gl bl m1 ph] [j1' an' nd' wa' wb' gt' gl' bl' m1' ph'] HE.
+  intros HSH I1 I2 HE.
+  pose proof (sender_bound _ _ _ _ _ _ I1 I2) as SB.
+  destruct (lt_own_bound _ _ _ _ _ _ I1 I2) as [LB _].
+  destruct I1 as [j1 an nd wa wb gt gl bl m1 ph]. destruct I2 as [j1' an' nd' wa' wb' gt' gl' bl' m1' ph'].
+  destruct (phase_m2 _ _ _ _ _ _ ph) as [A1 A2]. destruct m1' as [m1a m1b].
   pose proof (negb_swap _ _ HSH) as HHS.
   constructor; psimpl; try assumption.
   - intros i HI. destruct (wa' i HI) as [a [HP HL]]. exists a. split; [|exact HL].
-    apply add_pos_app. exact HP.
+    apply add_pos_append_upd. exact HP.
   - intros i HI. destruct (wb' i HI) as [a [HP HL]]. exists a. split; [|exact HL].
-    apply add_pos_app. exact HP.
-  - apply good_app_H; assumption.
-  - apply good_app_H; assumption.
-  - ph_cases ph'.
+    apply add_pos_append_upd. exact HP.
+  - apply good_upd_H; try assumption. rewrite SB. lia.
+  - apply good_upd_H; try assumption. rewrite SB. exact LB.
+  - split; assumption.
+  - assert (KG : forall k, rTip xH = Some k -> kgood H S xH xS k ->
+       kgood H S xH (mkParty (append_upd (own xS) (committed_bound S xS) u) (peer xS)
+                             (lTail xS) (lTip xS) (rTail xS) (rTip xS)) k).
+    { intros k R [G HR']. split; [|exact HR']. cbn [own]. apply good_upd_H; try assumption.
+      rewrite SB. specialize (m1b k R). lia. }
+    ph_cases ph'.
     + apply Ph0; psimpl; try assumption. rewrite nrev_app, NR. reflexivity.
-    + eapply Ph1; psimpl; try eassumption.
-      * apply kgood_app_H; assumption.
-      * rewrite nrev_app, NR. reflexivity.
-    + eapply Ph2; psimpl; try eassumption.
-      * apply kgood_app_H; assumption.
-      * rewrite nrev_app, NR. reflexivity.
-    + eapply Ph3; psimpl; try eassumption.
-      * apply kgood_app_H; assumption.
-      * rewrite nrev_app, NR. reflexivity.
+    + eapply Ph1; psimpl; try eassumption; [apply KG; assumption|].
+      rewrite nrev_app, NR. reflexivity.
+    + eapply Ph2; psimpl; try eassumption; [apply KG; assumption|].
+      rewrite nrev_app, NR. reflexivity.
+    + eapply Ph3; psimpl; try eassumption; [apply KG; assumption|].
+      rewrite nrev_app, NR. reflexivity.
 Qed.
 
 (* ---------- OSign by S ---------- *)
@@ -832,15 +1140,15 @@ Lemma sign_S S H xS xH qS qH k : H = negb S ->
     (sel S (n_of H (lTail xS)) (length (own xS))) = Some k ->
   InvDir S H (set_rTip xS (Some k)) xH (qS ++ [MSig k]) qH.
 Proof.
-  intros HSH [j1 an nd wa wb gt gl bl m1 ph] [j1' an' nd' wa' wb' gt' gl' bl' m1' ph'] HR HK.
+  intros HSH I1 I2 HR HK.
+  pose proof (peer_prefix _ _ _ _ _ _ _ I2 (le_n _)) as PP.
+  pose proof (peer_len _ _ _ _ _ _ I2) as PL.
+  destruct I1 as [j1 an nd wa wb gt gl bl m1 ph]. destruct I2 as [j1' an' nd' wa' wb' gt' gl' bl' m1' ph'].
   unfold set_rTip.
-  assert (HL : length (own xH) = length (peer xS) + nupd qH).
-  { rewrite <- j1', app_length. reflexivity. }
   apply sign_good with (xH := xH) in HK; try assumption; try lia.
-  2:{ eapply firstn_prefix; [exact j1'|exact bl']. }
   destruct HK as [HG [Ho [Hh [HnS HnH]]]].
   constructor; psimpl; try assumption.
-  - rewrite upds_in_app. cbn [upds_in]. rewrite app_nil_r. exact j1.
+  - rewrite replay_app. cbn [replay]. exact j1.
   - intros i HI. apply wb. rewrite upto_rev_snoc in HI.
     destruct (Nat.eqb (nrev qS) 0); [rewrite app_nil_r in HI|]; exact HI.
   - destruct m1 as [m1a m1b]. split; [exact m1a|]. intros k0 HE. inversion HE; subst k0. lia.
@@ -849,7 +1157,7 @@ Proof.
     + split; [exact HG|]. split; [exact Ho|]. split; [exact Hh|].
       rewrite HnS. destruct gt as [_ [gt1 _]]. exact gt1.
     + exists qS, []. repeat split; try assumption.
-      * rewrite HnS, <- j1, app_length. reflexivity.
+      * rewrite HnS, j1. reflexivity.
       * rewrite HnH. rewrite (phase_ev_rtail _ _ _ _ _ _ ph'). reflexivity.
 Qed.
 
@@ -890,7 +1198,7 @@ Proof.
   { ph_cases ph'; try congruence. assert (kp = k) by congruence. subst kp.
     destruct G as [_ [_ [_ HM]]]. rewrite E in HM. exact HM. }
   constructor; psimpl; try assumption.
-  - rewrite upds_in_app. cbn [upds_in]. rewrite app_nil_r. exact j1.
+  - rewrite replay_app. cbn [replay]. exact j1.
   - intros i HI. destruct (wa i HI) as [a [HP HA]]. exists a. split; [exact HP|]. lia.
   - intros i HI. apply wb. rewrite upto_rev_snoc in HI.
     destruct (Nat.eqb (nrev qS) 0); [rewrite app_nil_r in HI|]; exact HI.
@@ -915,18 +1223,19 @@ Proof.
   ph_cases ph'; try congruence.
   assert (kp = k) by congruence. subst kp.
   constructor; psimpl; try assumption.
+  - rewrite <- j1'. unfold hb. psimpl. rewrite HL. reflexivity.
   - destruct G as [G _]. exact G.
   - eapply Ph3; psimpl; try eassumption; try reflexivity.
     rewrite nrev_app, NR. reflexivity.
 Qed.
 
 (* ---------- ODeliver to S of an update ---------- *)
-Definition recv_upd (x : party) (u : upd) : party :=
-  mkParty (own x) (peer x ++ [u]) (lTail x) (lTip x) (rTail x) (rTip x).
+Definition recv_upd (x : party) (b : nat) (u : upd) : party :=
+  mkParty (own x) (append_upd (peer x) b u) (lTail x) (lTip x) (rTail x) (rTip x).
 
-Lemma dupd_S S H xS xH qS q u : H = negb S ->
+Lemma dupd_S S H xS xH qS q u b : H = negb S ->
   InvDir S H xS xH qS (MUpd u :: q) -> InvDir H S xH xS (MUpd u :: q) qS ->
-  InvDir S H (recv_upd xS u) xH qS q.
+  InvDir S H (recv_upd xS b u) xH qS q.
 Proof.
   intros HSH [j1 an nd wa wb gt gl bl m1 ph] [j1' an' nd' wa' wb' gt' gl' bl' m1' ph'].
   unfold recv_upd.
@@ -941,40 +1250,45 @@ Qed.
 
 Lemma dupd_H S H xS xH qS q u : H = negb S ->
   InvDir S H xS xH qS (MUpd u :: q) -> InvDir H S xH xS (MUpd u :: q) qS ->
-  InvDir H S xH (recv_upd xS u) q qS.
+  InvDir H S xH (recv_upd xS (committed_bound H xS) u) q qS.
 Proof.
-  intros HSH [j1 an nd wa wb gt gl bl m1 ph] [j1' an' nd' wa' wb' gt' gl' bl' m1' ph'].
+  intros HSH I1 I2.
+  pose proof (receiver_bound _ _ _ _ _ _ I2 I1) as RB. rewrite RB.
+  destruct I1 as [j1 an nd wa wb gt gl bl m1 ph]. destruct I2 as [j1' an' nd' wa' wb' gt' gl' bl' m1' ph'].
   unfold recv_upd.
+  assert (HB : hb H (mkParty (own xS) (append_upd (peer xS) (hb H xS) u)
+                             (lTail xS) (lTip xS) (rTail xS) (rTip xS)) = hb H xS) by reflexivity.
+  assert (LG : length (peer xS) <= length (append_upd (peer xS) (hb H xS) u))
+    by apply append_upd_length_ge.
   constructor; psimpl; try assumption.
-  - rewrite <- app_assoc. exact j1'.
-  - intros i HI. apply wb'. rewrite <- app_assoc in HI. exact HI.
-  - rewrite app_length. lia.
+  - intros i HI. apply wb'. rewrite parents_app in HI. rewrite parents_append_upd in HI.
+    rewrite <- parents_app in HI. rewrite <- app_assoc in HI. exact HI.
+  - lia.
   - cbn [nsig] in ph'. ph_cases ph'.
     + apply Ph0; psimpl; assumption.
     + eapply Ph1; psimpl; try eassumption.
       destruct SA as [pre [post [EQ [N1 [N2 [C1 C2]]]]]].
       destruct pre as [|m pre]; [discriminate|]. cbn [app] in EQ. inversion EQ; subst m q.
-      exists pre, post. cbn [nsig nrev] in *. unfold nupd in *. cbn [upds_in length] in C1.
+      exists pre, post. cbn [nsig nrev] in *.
       repeat split; try assumption; psimpl.
-      rewrite app_length. cbn [length]. lia.
-    + eapply Ph2; psimpl; try eassumption. rewrite app_length. lia.
-    + eapply Ph3; psimpl; try eassumption. rewrite app_length. lia.
+    + eapply Ph2; psimpl; try eassumption. lia.
+    + eapply Ph3; psimpl; try eassumption. lia.
 Qed.
 
 (* ---------- ODeliver to S of a commitment signature ---------- *)
 Definition set_lTip (x : party) (t : option commit) : party :=
   mkParty (own x) (peer x) (lTail x) t (rTail x) (rTip x).
 
-Lemma recv_commit S H xS xH e k : H = negb S ->
+Lemma recv_commit S H xS xH k : H = negb S ->
   good H S (own xH) (own xS) k -> c_owner k = S ->
-  n_of H k = length (peer xS) -> peer xS ++ e = own xH ->
+  n_of H k = length (peer xS) ->
+  firstn (length (peer xS)) (own xH) = firstn (length (peer xS)) (peer xS) ->
   commit_of c S (c_h k) (logA_of S xS) (logB_of S xS)
     (sel S (n_of S k) (length (peer xS))) (sel S (length (peer xS)) (n_of S k)) = Some k.
 Proof.
   intros -> [HK _] Ho Hn Hj. rewrite Ho in HK. etransitivity; [|exact HK].
   destruct S; cbn [sel negb n_of logA_of logB_of] in *; rewrite <- Hn;
-  apply commit_of_ext; try reflexivity; rewrite Hn;
-  (eapply firstn_prefix; [exact Hj|lia]).
+  apply commit_of_ext; try reflexivity; rewrite Hn; symmetry; exact Hj.
 Qed.
 
 (* the head signature of the queue towards S, and what the invariant knows of it *)
@@ -989,8 +1303,8 @@ Proof.
   destruct SA as [pre [post [EQ [N1 [N2 [C1 C2]]]]]].
   destruct pre as [|m pre].
   - cbn [app] in EQ. inversion EQ; subst kp post.
-    unfold ev_rtail, nupd in *. cbn [upds_in length nrev Nat.eqb] in C1, C2.
-    rewrite Nat.add_0_r in C1. split; [exact R|]. split; [exact G|]. repeat split; assumption.
+    unfold ev_rtail in *. cbn [replay nrev Nat.eqb] in C1, C2.
+    split; [exact R|]. split; [exact G|]. repeat split; assumption.
   - cbn [app] in EQ. inversion EQ; subst m. cbn [nsig] in N1. discriminate.
 Qed.
 
@@ -1002,7 +1316,10 @@ Proof.
   destruct HS as [R [G [N2 [C1 [C2 [L [NR E]]]]]]].
   destruct I' as [j1' an' nd' wa' wb' gt' gl' bl' m1' ph'].
   destruct G as [HG [Ho [Hh _]]].
-  pose proof (recv_commit S H xS xH _ k0 HSH HG Ho C1 j1') as HC.
+  assert (HJ : firstn (length (peer xS)) (own xH) = firstn (length (peer xS)) (peer xS)).
+  { rewrite <- j1'. cbn [replay]. apply replay_firstn; [lia|lia|].
+    intros k HI. exfalso. exact (nsig_notin _ _ N2 HI). }
+  pose proof (recv_commit S H xS xH k0 HSH HG Ho C1 HJ) as HC.
   unfold do_recv_sig. cbv zeta. rewrite L. cbn [tip_of].
   rewrite Hh, E, C2 in HC. unfold sel in HC.
   rewrite HC, commit_eqb_refl. reflexivity.
@@ -1065,14 +1382,15 @@ Proof.
   { ph_cases ph; cbn [nrev] in NR; try discriminate. split; [lia|congruence]. }
   destruct HQ as [HQ HT].
   constructor; psimpl; try assumption.
-  - intros i HI. rewrite (upto_rev_norev q HQ) in HI. cbn [upds_in] in j1'.
-    rewrite j1' in HI. rewrite <- HT. apply wa'. exact HI.
+  - intros i HI. rewrite (upto_rev_norev q HQ) in HI. cbn [replay] in j1'.
+    rewrite <- (parents_replay H q (peer xS) (hb H xS)), j1' in HI.
+    rewrite <- HT. apply wa'. exact HI.
   - cbn [nsig] in ph'. ph_cases ph'.
     + apply Ph0; psimpl; assumption.
     + eapply Ph1; psimpl; try eassumption.
       destruct SA as [pre [post [EQ [N1 [N2 [C1 C2]]]]]].
       destruct pre as [|m pre]; [discriminate|]. cbn [app] in EQ. inversion EQ; subst m q.
-      exists pre, post. cbn [nsig] in N1. unfold nupd in *. cbn [upds_in] in C1.
+      exists pre, post. cbn [nsig] in N1. cbn [replay] in C1.
       repeat split; try assumption; psimpl.
       unfold ev_rtail in *. cbn [nrev Nat.eqb] in C2. psimpl. rewrite HR in C2. cbn [tip_of] in *.
       rewrite C2. destruct (Nat.eqb (nrev pre) 0); reflexivity.
@@ -1371,9 +1689,11 @@ Lemma sign_cut_wf S H xS xH qS qH : H = negb S ->
   InvDir S H xS xH qS qH -> InvDir H S xH xS qH qS ->
   commit_wf (logA_of S xS) (logB_of S xS) (fst (sign_cut S xS)) (snd (sign_cut S xS)) = true.
 Proof.
-  intros HSH [j1 an nd wa wb gt gl bl m1 ph] [j1' an' nd' wa' wb' gt' gl' bl' m1' ph'].
+  intros HSH I1 I2.
+  pose proof (peer_prefix _ _ _ _ _ _ _ I2 (le_n _)) as PP.
+  destruct I1 as [j1 an nd wa wb gt gl bl m1 ph]. destruct I2 as [j1' an' nd' wa' wb' gt' gl' bl' m1' ph'].
   unfold sign_cut. cbn [fst snd]. rewrite <- HSH.
-  rewrite (wf_logs S xS xH); [|eapply firstn_prefix; [exact j1'|exact bl']].
+  rewrite (wf_logs S xS xH); [|exact PP].
   apply wf_SH.
   - apply nodup_parents_firstn. exact nd.
   - apply nodup_parents_firstn. exact nd'.
@@ -1382,31 +1702,28 @@ Proof.
   - intros i HI. apply parents_firstn_in in HI. exact (wa i HI).
 Qed.
 
-Lemma recv_cut_wf S H xS xH qS qH : H = negb S ->
-  InvDir S H xS xH qS qH -> InvDir H S xH xS qH qS ->
+(* the cut used when the head signature of the queue towards S is delivered *)
+Lemma recv_cut_wf S H xS xH qS q k0 : H = negb S ->
+  InvDir S H xS xH qS (MSig k0 :: q) -> InvDir H S xH xS (MSig k0 :: q) qS ->
   commit_wf (logA_of S xS) (logB_of S xS) (fst (recv_cut S xS)) (snd (recv_cut S xS)) = true.
 Proof.
-  intros HSH [j1 an nd wa wb gt gl bl m1 ph] [j1' an' nd' wa' wb' gt' gl' bl' m1' ph'].
-  unfold recv_cut. cbn [fst snd].
-  assert (HF : firstn (length (peer xS)) (own xH) = peer xS).
-  { rewrite <- j1'. rewrite firstn_app_le by lia. apply firstn_all. }
-  rewrite (wf_logs S xS xH); [|rewrite HF; apply firstn_all].
-  apply wf_SH.
-  - apply nodup_parents_firstn. exact nd.
-  - apply nodup_parents_firstn. exact nd'.
-  - intros i HI. rewrite HF in HI. apply wb'. rewrite parents_app. apply in_or_app. left. exact HI.
-  - intros i HI. apply parents_firstn_in in HI. destruct (wa i HI) as [a [HP HL]].
-    exists a. split; [exact HP|]. lia.
+  intros HSH I1 I2.
+  pose proof (recv_sig_ok _ _ _ _ _ _ _ HSH I2) as HOK.
+  rewrite do_recv_sig_cut in HOK.
+  destruct (commit_of c S (c_h (tip_of (lTail xS) (lTip xS)) + 1)%Z (logA_of S xS) (logB_of S xS)
+              (fst (recv_cut S xS)) (snd (recv_cut S xS))) as [k'|] eqn:HK; [|discriminate].
+  apply commit_of_inv in HK. destruct HK as [gA [gB [HW _]]]. exact HW.
 Qed.
 
 Lemma inv_wf s : Inv s -> forall p,
   let x := get s p in
   commit_wf (logA_of p x) (logB_of p x) (fst (sign_cut p x)) (snd (sign_cut p x)) = true /\
-  commit_wf (logA_of p x) (logB_of p x) (fst (recv_cut p x)) (snd (recv_cut p x)) = true.
+  (forall k q, outq s (negb p) = MSig k :: q ->
+   commit_wf (logA_of p x) (logB_of p x) (fst (recv_cut p x)) (snd (recv_cut p x)) = true).
 Proof.
   intros HI p x. destruct (inv_get s HI p) as [I1 I2]. split.
   - eapply sign_cut_wf; try eassumption; reflexivity.
-  - eapply recv_cut_wf; try eassumption; reflexivity.
+  - intros k q HQ. rewrite HQ in I1, I2. eapply recv_cut_wf; try eassumption; reflexivity.
 Qed.
 
 (* a refused signature (ErrSanity) is always a money refusal, never a malformed cut *)
@@ -1456,7 +1773,8 @@ Proof. intros HR. apply (inv_window c). apply inv_reachable. exact HR. Qed.
 Lemma reach_wf c s : reachable c s -> forall p,
   let x := get s p in
   commit_wf (logA_of p x) (logB_of p x) (fst (sign_cut p x)) (snd (sign_cut p x)) = true /\
-  commit_wf (logA_of p x) (logB_of p x) (fst (recv_cut p x)) (snd (recv_cut p x)) = true.
+  (forall k q, outq s (negb p) = MSig k :: q ->
+   commit_wf (logA_of p x) (logB_of p x) (fst (recv_cut p x)) (snd (recv_cut p x)) = true).
 Proof. intros HR. apply (inv_wf c). apply inv_reachable. exact HR. Qed.
 
 Lemma reach_sign_sanity c s : reachable c s -> forall p,
